@@ -112,7 +112,7 @@ def run_obligation(build, name, spec, max_seconds=300.0, frontier=256, pool=None
 # ---- grammars (concrete rule tables served by the harness's scaffold callback) ---------------------------------------------------
 
 def spec_text(n, T, binary, unary=(), roots=(), nbest=1, pruning=None, use_beta=False, beta=0.5, max_step=100000, penalty='0',
-              below=(), checks='omsnb', records=False, record_every=1, flat=(), lo=None):
+              below=(), checks='omsnb', records=False, record_every=1, flat=(), lo=None, eq=()):
     lines = ['n %d T %d nbest %d pruning %d max_step %d use_beta %d beta %r penalty %s' % (n, T, nbest, pruning if pruning is not None else T, max_step, 1 if use_beta else 0, beta, penalty)]
     for i, c in below:
         lines.append('below %d %d' % (i, c))
@@ -120,6 +120,8 @@ def spec_text(n, T, binary, unary=(), roots=(), nbest=1, pruning=None, use_beta=
         lines.append('flat %d %d' % (i, c))
     if lo is not None:
         lines.append('lo %d' % lo)
+    for kind, i, j, v in eq:
+        lines.append('eq %s %d %d %d' % (kind, i, j, v))
     for r in roots:
         lines.append('root %d' % r)
     for x, y, c, h, lab in binary:
